@@ -11,7 +11,7 @@ import random
 
 import networkx as nx
 
-from ..common import Result, sut, digest, SutRaised, tight_stack_call
+from ..common import MonitorAlarm, Result, sut, digest, SutRaised, tight_stack_call
 from ..exactpoly import P, percolation_poly, percolation_counts, percolation_value, percolation_abs, NONINTEGRAL_FLOATS, ShadowUnsupported
 from ..graphfam import atlas, atlas_graph
 
@@ -22,6 +22,7 @@ RULE = ("motifs: every connected atlas graph with <= 5 vertices plus every conne
         "with re-queries of the same motif under other roots / phi / u, every answer compared with the brute-force oracle; a quarter of the queries put the SAME value (one polynomial variable, or one float) on every vertex; 60% of the history queries hand over a motif graph OBJECT kept from earlier queries with its u attributes overwritten in place, and re-query it at the same phi and focal vertex after such an update; non-trivial = "
         ">= 3 vertices and (a cycle or >= 2 distinct u in the answer); distinct = SHA-1 of (edge set, roots, history)")
 RULE += ("; rounds k-l added: " + "vertex ids up to 10**6 (beyond CPython's small-int cache) and the focal vertex handed over as a freshly built equal object on every call")
+RULE += '; round n: half of the re-queries use a phi that nearly coincides with the previous one (relative offset 1e-11 .. 4e-7); a vectorised phi call that is refused is only counted'
 ASSUMPTIONS = ["all motifs on one evaluator are distinctly named (as the property stipulates)", "polynomial identity after full expansion; float spot checks at 1e-12",
                "oracle: enumeration of all 2^|E| occupation states with a bitmask component search"]
 HEADLINE = ["queries", "poly_identities", "float_checks", "motifs", "roots", "history_cases", "cross_evaluator_name_reuse", "queries_on_a_kept_motif_object", "requeries_after_in_place_u_update", "calls_aborted_by_injected_recursion_limit", "vectorised_phi_calls", "cache_hits", "cache_misses", "shadow_unsupported", "nonintegral_float_coercions"]
@@ -183,18 +184,25 @@ def query(res, ae, watch, g, name, root, mode, rng, oracle_cache, ctx, H=None, p
             import numpy as np
             grid = [phi, rng.random(), rng.choice([0.0, 1.0, 0.5, rng.random()])]
             res.count("vectorised_phi_calls")
-            gotv = watch.around(lambda: sut("automated_equation(phi array)", ae.automated_equation, H, np.array(grid, dtype=float), _fresh(root)))
             try:
-                vals = [float(x) for x in np.asarray(gotv, dtype=float).ravel()]
+                gotv = watch.around(lambda: ae.automated_equation(H, np.array(grid, dtype=float), _fresh(root)))
+            except MonitorAlarm:
+                raise
+            except Exception:      # noqa: BLE001 - a whole grid at once is a convenience the property does not promise: a refusal is only counted
+                res.count("vectorised_phi_calls_refused")
+                gotv = None
+            try:
+                vals = [float(x) for x in np.asarray(gotv, dtype=float).ravel()] if gotv is not None else None
             except Exception:
                 vals = None
-            wants = [percolation_value(counts, m, root, ph, us) for ph in grid]
-            if vals is None or len(vals) != len(grid) or any(
-                    not (abs(a - b) <= 1e-12 * max(4, m) * max(1.0, percolation_abs(counts, m, root, ph, us))) for a, b, ph in zip(vals, wants, grid)):
-                res.violate("automated-equation-differs-from-expectation(float)", root=root, phi=grid, u=us, got=repr(gotv)[:200], want=wants, vectorised=True, ctx=ctx)
-                return False
-            res.count("float_checks", len(grid))
-            return True
+            if gotv is not None:
+                wants = [percolation_value(counts, m, root, ph, us) for ph in grid]
+                if vals is None or len(vals) != len(grid) or any(
+                        not (abs(a - b) <= 1e-12 * max(4, m) * max(1.0, percolation_abs(counts, m, root, ph, us))) for a, b, ph in zip(vals, wants, grid)):
+                    res.violate("automated-equation-differs-from-expectation(float)", root=root, phi=grid, u=us, got=repr(gotv)[:200], want=wants, vectorised=True, ctx=ctx)
+                    return False
+                res.count("float_checks", len(grid))
+                return True
         got = watch.around(lambda: sut("automated_equation(float)", ae.automated_equation, H, phi, _fresh(root)))
         want = percolation_value(counts, m, root, phi, us)
         res.count("float_checks")
@@ -278,7 +286,12 @@ def run_case(case):
                 # the next sweep: same object, same focal vertex, same phi - only the u values on the vertices have changed
                 res.count("requeries_after_in_place_u_update")
                 hist.append((name, root, "float-again"))
-                if not query(res, ae, watch, g, name, root, "float", rng, oc, dict(ctxq, requery_same_object_phi_root_after_u_update=True), H=H, phi=out.get("phi")):
+                ph2 = out.get("phi")
+                if ph2 and rng.random() < 0.5:
+                    # ... or at a phi that NEARLY coincides with the one just used (the next step of a fine sweep or of a bisection)
+                    ph2 = ph2 * (1 + rng.choice([3e-9, -2e-9, 4e-7, 1e-11]))
+                    res.count("requeries_at_a_nearly_coincident_phi")
+                if not query(res, ae, watch, g, name, root, "float", rng, oc, dict(ctxq, requery_same_object_phi_root_after_u_update=True), H=H, phi=ph2):
                     break
         # a second evaluator object in the same process that reuses the first one's motif NAMES for other graphs
         # (names only have to be distinct per evaluator: MessagePassing names its motifs "<focal>-<id>" on every network)
